@@ -272,11 +272,45 @@ Proof.
   apply updated_cache_coherent; try assumption. intros f Hf. apply (to_process_in _ _ _ E). exact Hf.
 Qed.
 
-Lemma run_history_coherent l bs c :
-  unique_names l -> coherent l c -> coherent l (run_history l bs c).
+Lemma to_process_range_in l lo hi fs : to_process_range l lo hi = Ok fs ->
+  forall f, In f fs -> In (fname f, KFile (fcontent f)) l.
 Proof.
-  intros Hu. revert c; induction bs as [|b bs IH]; intros c Hc; simpl; [exact Hc|].
-  apply IH. apply compute_cached_coherent; assumption.
+  unfold to_process_range, list_all. destruct (collect l) as [cs| |] eqn:Ec; simpl; try discriminate.
+  intros [= <-] f Hf. apply filter_In in Hf as [Hf _].
+  apply (Permutation_in _ (Permutation_sym (isort_is_perm _ ifile_leb cs))) in Hf.
+  apply (collect_in _ _ Ec). exact Hf.
+Qed.
+
+Lemma compute_range_cached_coherent l lo hi c :
+  unique_names l -> coherent l c -> coherent l (snd (compute_range_cached l lo hi c)).
+Proof.
+  intros Hu Hc. unfold compute_range_cached. destruct (to_process_range l lo hi) as [fs| |] eqn:E; simpl; try exact Hc.
+  apply updated_cache_coherent; try assumption. intros f Hf. apply (to_process_range_in _ _ _ _ E). exact Hf.
+Qed.
+
+(* with a coherent cache the digest list of a range is the cache-less one *)
+Lemma compute_range_coherent l lo hi c :
+  coherent l c -> fst (compute_range_cached l lo hi c) = fst (compute_range_cached l lo hi []).
+Proof.
+  intros Hc. unfold compute_range_cached. destruct (to_process_range l lo hi) as [fs| |] eqn:E; simpl; try reflexivity.
+  f_equal. apply map_ext_in. intros f Hf. f_equal. unfold digest_with. simpl.
+  destruct (cache_get c (fname f)) as [d|] eqn:Eg; [|reflexivity].
+  apply (Hc _ _ Eg). apply (to_process_range_in _ _ _ _ E). exact Hf.
+Qed.
+
+Lemma hop_cache_coherent l h c :
+  unique_names l -> coherent l c -> coherent l (hop_cache l h c).
+Proof.
+  intros Hu Hc. destruct h as [b|lo hi]; simpl.
+  - apply compute_cached_coherent; assumption.
+  - apply compute_range_cached_coherent; assumption.
+Qed.
+
+Lemma run_history_coherent l hs c :
+  unique_names l -> coherent l c -> coherent l (run_history l hs c).
+Proof.
+  intros Hu. revert c; induction hs as [|h hs IH]; intros c Hc; simpl; [exact Hc|].
+  apply IH. apply hop_cache_coherent; assumption.
 Qed.
 
 Lemma compute_cached_fst l b c : fst (compute_cached l b c) = compute l b c.
